@@ -31,6 +31,8 @@ structure Prov where
   primary : Bool           -- implements definition.WirePrimary
   qual : Option Bytes      -- Qualifier() when the type has the method
   meths : List Meth
+  inj : Option (Nat × Nat) := none   -- (type id, implements bits) of the object that holders RECEIVE when a post-processor
+                                      -- substitutes an object of a different Go type for this component; `none` = same type
 deriving Repr
 
 inductive Kind
@@ -57,6 +59,13 @@ def assignable (k : Kind) (p : Prov) : Bool :=
   match typeOption k with
   | some f => f p
   | none => false
+
+/-- the value check of Property.Inject (`m.Value.Type().AssignableTo(elemType)`, property.go:85-92): it looks at the object
+    that was actually obtained from the factory — the substitute's type when a post-processor wrapped the component -/
+def injAssignable (k : Kind) (p : Prov) : Bool :=
+  match p.inj with
+  | none => assignable k p
+  | some (t, im) => assignable k { p with ty := t, impl := im }
 
 def findMeth (p : Prov) (fn : Bytes) : Option Meth :=
   p.meths.find? (fun m => ofString m.name == fn)
@@ -173,7 +182,7 @@ def resolveOne (pop : List Prov) (s : Slot) : Option RPoint :=
     | .skip => some { cands := [], slice := s.kind.isSlice, required := isRequired args, incompat := [] }
     | .ok l => some { cands := l, slice := s.kind.isSlice, required := isRequired args,
                       incompat := l.filter (fun c => match byId c with
-                        | some p => !assignable s.kind p
+                        | some p => !injAssignable s.kind p
                         | none => true) }
 
 /-- the per-property LOOP over all component properties of one holder, with its exits (after the repair it has no early `return nil, nil`) -/
